@@ -25,6 +25,11 @@ Assignment expressions elsewhere (right operand of and/or, comprehensions) are l
   * a private module level constant (_NAME bound once to a literal, or to a tuple / list of literals and dotted names) read inside a
     function that has no local of that name   -> the literal
   * in a loop that is unrolled: a guard `if t: continue` at the top level of the body   -> `if not t: <rest of the body>`
+  * return next((e for v in L if c), <constant>)   -> for v in L: if c: return e  /  return <constant>
+    x = next((e for v in L if c), <constant>)        -> x = <constant>; for v in L: if c: x = e; break
+    (v bound nowhere else in the function)
+  * a function defined inside a function that reads no local of the enclosing function (only its own parameters, module level names
+    and builtins) is moved to module level as _<outer>__<name>; every reference inside the outer function is renamed
   * collections.deque(xs) without maxlen -> list(xs); q.popleft() -> q.pop(0); q.appendleft(x) -> q.insert(0, x)   (a work list is read as a list)
   * operator.itemgetter(i, j) / operator.attrgetter('a')   -> lambda s: (s[i], s[j]) / lambda o: o.a   (same value for every call)
   * P = functools.partial(F, *a, **k) at module level (bound once) ... P(*b, **l)   -> F(*a, *b, **k, **l)  (l overrides k)
@@ -331,6 +336,17 @@ class Normaliser(ast.NodeTransformer):
         return [self.visit(_walrus_assign(named, st)), st]
 
     def visit_Return(self, st):
+        fm = self._first_match(st.value) if st.value is not None else None
+        if fm is not None:
+            var, it, cond, elt, default = fm
+            ret = ast.copy_location(ast.Return(value=elt), st)
+            body = [ast.copy_location(ast.If(test=cond, body=[ret], orelse=[]), st)] if cond is not None else [ret]
+            loop = ast.copy_location(ast.For(target=ast.Name(id=var, ctx=ast.Store()), iter=it, body=body, orelse=[]), st)
+            tail = ast.copy_location(ast.Return(value=default), st)
+            ast.fix_missing_locations(loop)
+            ast.fix_missing_locations(tail)
+            r = self.visit(loop)
+            return (r if isinstance(r, list) else [r]) + [self.visit(tail)]
         pre = self._hoisted(st, "value")
         st = self.generic_visit(st)
         return ([self.visit(a) for a in pre] + [st]) if pre else st
@@ -338,6 +354,18 @@ class Normaliser(ast.NodeTransformer):
     def visit_Assign(self, st):
         t = st.targets[0] if len(st.targets) == 1 else None
         v = st.value
+        fm = self._first_match(v) if isinstance(t, ast.Name) else None
+        if fm is not None and fm[0] != t.id:
+            var, it, cond, elt, default = fm
+            init = ast.copy_location(ast.Assign(targets=[ast.Name(id=t.id, ctx=ast.Store())], value=default, lineno=st.lineno), st)
+            hit = [ast.copy_location(ast.Assign(targets=[ast.Name(id=t.id, ctx=ast.Store())], value=elt, lineno=st.lineno), st),
+                   ast.copy_location(ast.Break(), st)]
+            body = [ast.copy_location(ast.If(test=cond, body=hit, orelse=[]), st)] if cond is not None else hit
+            loop = ast.copy_location(ast.For(target=ast.Name(id=var, ctx=ast.Store()), iter=it, body=body, orelse=[]), st)
+            ast.fix_missing_locations(init)
+            ast.fix_missing_locations(loop)
+            r = self.visit(loop)
+            return [init] + (r if isinstance(r, list) else [r])
         if isinstance(t, ast.Tuple) and len(t.elts) == 2 and isinstance(t.elts[0], ast.Name) and isinstance(t.elts[1], ast.Starred) \
                 and isinstance(t.elts[1].value, ast.Name) and isinstance(v, ast.Call) and isinstance(v.func, ast.Attribute) \
                 and v.func.attr == "split" and len(v.args) == 1 and isinstance(v.args[0], ast.Constant) and not v.keywords \
@@ -504,6 +532,46 @@ class Normaliser(ast.NodeTransformer):
             return res
         return self.generic_visit(st)
 
+    def visit_FunctionDef(self, fn):
+        # names bound inside the function hide module level partials; a local bound once to partial(F, ...) is one itself
+        stores = {}
+        for y in ast.walk(fn):
+            if isinstance(y, ast.Name) and isinstance(y.ctx, (ast.Store, ast.Del)):
+                stores[y.id] = stores.get(y.id, 0) + 1
+        params = set(a.arg for a in fn.args.posonlyargs + fn.args.args + fn.args.kwonlyargs)
+        saved = self.partials
+        scoped = dict((k, v) for k, v in saved.items() if k not in stores and k not in params)
+        for st in fn.body:
+            if isinstance(st, ast.Assign) and len(st.targets) == 1 and isinstance(st.targets[0], ast.Name) and isinstance(st.value, ast.Call) \
+                    and self._is_partial(st.value.func) and st.value.args and isinstance(st.value.args[0], ast.Name) \
+                    and stores.get(st.targets[0].id) == 1 and st.targets[0].id not in params \
+                    and not any(isinstance(a, ast.Starred) for a in st.value.args) and not any(k.arg is None for k in st.value.keywords):
+                scoped[st.targets[0].id] = st.value
+        self.partials = scoped
+        saved_stores = getattr(self, "_fn_stores", None)
+        self._fn_stores = stores
+        try:
+            return self.generic_visit(fn)
+        finally:
+            self.partials = saved
+            self._fn_stores = saved_stores
+
+    def _first_match(self, v):
+        """(loop variable, iterable, condition or None, element, default) when v is next((e for x in L if c...), <constant>)"""
+        if not (isinstance(v, ast.Call) and isinstance(v.func, ast.Name) and v.func.id == "next" and len(v.args) == 2 and not v.keywords
+                and isinstance(v.args[1], ast.Constant) and isinstance(v.args[0], ast.GeneratorExp) and len(v.args[0].generators) == 1):
+            return None
+        gen = v.args[0].generators[0]
+        stores = getattr(self, "_fn_stores", None)
+        if gen.is_async or not isinstance(gen.target, ast.Name) or stores is None or stores.get(gen.target.id) != 1:
+            return None
+        cond = None
+        if gen.ifs:
+            cond = gen.ifs[0] if len(gen.ifs) == 1 else ast.BoolOp(op=ast.And(), values=list(gen.ifs))
+        return gen.target.id, gen.iter, cond, v.args[0].elt, v.args[1]
+
+    visit_AsyncFunctionDef = visit_FunctionDef
+
     def visit_Call(self, c):
         self.generic_visit(c)
         # P(...) for a module level P = partial(F, ...)
@@ -630,7 +698,73 @@ class _InlinePrivateConstants(ast.NodeTransformer):
         return n
 
 
+def _lift_closed_local_functions(tree):
+    """lambda lifting of local helper functions without free variables of their enclosing function"""
+    import builtins as _b
+    taken = set(n.name for n in tree.body if isinstance(n, (ast.FunctionDef, ast.AsyncFunctionDef, ast.ClassDef)))
+    lifted = []
+
+    def locals_of(fn):
+        out = set(a.arg for a in fn.args.posonlyargs + fn.args.args + fn.args.kwonlyargs)
+        if fn.args.vararg:
+            out.add(fn.args.vararg.arg)
+        if fn.args.kwarg:
+            out.add(fn.args.kwarg.arg)
+        for y in ast.walk(fn):
+            if isinstance(y, ast.Name) and isinstance(y.ctx, (ast.Store, ast.Del)):
+                out.add(y.id)
+            elif isinstance(y, (ast.FunctionDef, ast.AsyncFunctionDef, ast.ClassDef)) and y is not fn:
+                out.add(y.name)
+            elif isinstance(y, ast.ExceptHandler) and y.name:
+                out.add(y.name)
+        return out
+
+    def handle(outer, prefix):
+        outer_locals = locals_of(outer)
+        for i, st in enumerate(list(outer.body)):
+            if not isinstance(st, ast.FunctionDef) or st.decorator_list:
+                continue
+            inner_locals = locals_of(st)
+            reads = set(y.id for y in ast.walk(st) if isinstance(y, ast.Name) and isinstance(y.ctx, ast.Load))
+            free = reads - inner_locals
+            if free & (outer_locals - set([st.name])) or any(isinstance(y, (ast.Nonlocal, ast.Global, ast.Yield, ast.YieldFrom)) for y in ast.walk(st)):
+                continue
+            if st.name in free:          # recursive local function: keep it simple
+                continue
+            # bound exactly once in the outer function
+            if sum(1 for y in ast.walk(outer) if isinstance(y, ast.FunctionDef) and y.name == st.name) != 1 or \
+                    any(isinstance(y, ast.Name) and y.id == st.name and isinstance(y.ctx, (ast.Store, ast.Del)) for y in ast.walk(outer)):
+                continue
+            new_name = "_%s__%s" % (prefix.strip("_"), st.name.strip("_"))
+            if new_name in taken:
+                continue
+            taken.add(new_name)
+            old = st.name
+            outer.body.remove(st)
+            if not outer.body:
+                outer.body.append(ast.copy_location(ast.Pass(), st))
+            for y in ast.walk(outer):
+                if isinstance(y, ast.Name) and y.id == old:
+                    y.id = new_name
+            st.name = new_name
+            lifted.append(st)
+
+    for top in list(tree.body):
+        if isinstance(top, (ast.FunctionDef, ast.AsyncFunctionDef)):
+            handle(top, top.name)
+        elif isinstance(top, ast.ClassDef):
+            for m in top.body:
+                if isinstance(m, (ast.FunctionDef, ast.AsyncFunctionDef)):
+                    handle(m, m.name)
+    if lifted:
+        # after the imports and constants, before the first class / function that may call them at import time it does not matter:
+        # a def only has to exist when it is called
+        tree.body.extend(lifted)
+    return tree
+
+
 def normalise(tree):
+    tree = _lift_closed_local_functions(tree)
     inl = _InlinePrivateConstants(tree)
     if inl.consts:
         tree = inl.visit(tree)
